@@ -173,38 +173,81 @@ def dta(ctx, R):
 
 @rule("IS1", "property values are dispatched to the TDMS type of their Python type (no shadowed isinstance test)", floor=9)
 def is1(ctx, R):
+    """The dispatcher is put in normal form and evaluated for a value of each Python type: every isinstance test is answered with
+    Python's / NumPy's own subclass relation (bool is an int, numpy.float64 is a float and a numpy.number, ...), so a test that
+    shadows a later one shows up as the wrong result for that type, whatever the order or grouping of the tests."""
+    import datetime as _dt
+    import numpy as np
+    from .sym import Sym, eval_cond, show, alpha
+    from .sem import leaves, match, W, find
     prog = ctx.prog
     fi = prog.func("writer._to_tdms_value")
-    seq = []
-    for s in fi.node.body:
-        if isinstance(s, ast.If):
-            names = []
-            for n in ast.walk(s.test):
-                if isinstance(n, ast.Call) and call_name(n) == "isinstance" and len(n.args) == 2:
-                    t = n.args[1]
-                    for x in (t.elts if isinstance(t, ast.Tuple) else [t]):
-                        names.append(dotted(x))
-            ret = [x for x in s.body if isinstance(x, ast.Return)]
-            seq.append((names, unparse(ret[0].value) if ret else None, s))
-    if len(seq) < 9:
-        raise AnchorMissing("writer._to_tdms_value: isinstance chain (found %d tests)" % len(seq))
-    pos = {}
-    for i, (names, _, _) in enumerate(seq):
-        for nm in names:
-            pos.setdefault(nm, i)
-    # subclass facts (frozen, reviewed): bool is a subclass of int
-    R.check("bool" in pos and "int" in pos and pos["bool"] < pos["int"], "writer._to_tdms_value::bool before int", fi.where(),
-            "bool is tested before int", "isinstance(value, int) is tested before bool: True/False would be written as Int32 1/0 instead of Boolean")
-    want = {"bool": "Boolean(value)", "np.bool_": "Boolean(value)", "int": "to_int_property_value(value)", "float": "DoubleFloat(value)",
-            "datetime": "TimeStamp(value)", "np.datetime64": "TimeStamp(value)", "TdmsTimestamp": "value", "str": "String(value)", "bytes": "String(value)",
-            "TdmsType": "value", "np.number": "numpy_data_types[value.dtype](value)"}
-    for nm, expect in sorted(want.items()):
-        if nm not in pos:
-            R.violation("writer._to_tdms_value::%s" % nm, fi.where(), "values of type %s are no longer accepted as property values" % nm)
+    P = ("param", fi.params[0])
+    v = Sym(prog, fi, None, stack=("writer.to_int_property_value",)).function_value()
+    if v[0] == "opaque" or len(find(v, ("call", "isinstance", W(), W()))) < 5:
+        raise AnchorMissing("writer._to_tdms_value: isinstance chain (found %d tests)" % len(find(v, ("call", "isinstance", W(), W()))))
+
+    class _TdmsType(object):
+        pass
+
+    class _Int32(_TdmsType):
+        pass
+
+    class _TdmsTimestamp(object):
+        pass
+
+    def pyclass(x):
+        """Python class denoted by a canonical class reference"""
+        if x[0] == "class":
+            return {"types.TdmsType": _TdmsType, "timestamp.TdmsTimestamp": _TdmsTimestamp}.get(x[1], type("Other_" + x[1], (), {}))
+        if x[0] == "ext" and x[1].startswith("numpy."):
+            return getattr(np, x[1].split(".", 1)[1], None)
+        if x[0] in ("name", "global", "ext"):
+            nm = x[1].split(".")[-1]
+            if nm in ("datetime",):
+                return _dt.datetime
+            import builtins
+            return getattr(builtins, nm, None)
+        return None
+    types_ = [("bool", bool, ("new", "types.Boolean")), ("numpy.bool_", np.bool_, ("new", "types.Boolean")), ("int", int, ("call", "writer.to_int_property_value")),
+              ("float", float, ("new", "types.DoubleFloat")), ("datetime", _dt.datetime, ("new", "types.TimeStamp")),
+              ("numpy.datetime64", np.datetime64, ("new", "types.TimeStamp")), ("TdmsTimestamp", _TdmsTimestamp, "itself"), ("str", str, ("new", "types.String")),
+              ("bytes", bytes, ("new", "types.String")), ("TdmsType", _Int32, "itself"), ("numpy.int16", np.int16, "numpy table"), ("numpy.float64", np.float64, "numpy table")]
+    for tname, T, want in types_:
+        def orc(c, T=T):
+            if isinstance(c, tuple) and c and c[0] == "call" and c[1] == "isinstance" and len(c[2]) == 2 and c[2][0] == P:
+                t = c[2][1]
+                cands = [pyclass(x) for x in (t[1] if t[0] == "tuple" else [t])]
+                if any(k is None for k in cands):
+                    return None
+                return any(issubclass(T, k) for k in cands)
+            return None
+        outs = []
+        unknown = False
+        for conds, leaf in leaves(v):
+            vals = [eval_cond(c, orc) for c in conds]
+            if any(x is False for x in vals):
+                continue
+            if any(x is None for x in vals):
+                unknown = True
+            outs.append(leaf)
+        key = "writer._to_tdms_value::%s" % tname
+        if unknown or len(outs) != 1:
+            if len(outs) == 0:
+                R.violation(key, fi.where(), "values of type %s are no longer accepted as property values" % tname)
+            else:
+                R.undecided(key, fi.where(), "result for a %s value not decided (%d candidates)" % (tname, len(outs)))
             continue
-        got = seq[pos[nm]][1]
-        R.check(got == expect, "writer._to_tdms_value::%s" % nm, fi.where(seq[pos[nm]][2]), "%s -> %s" % (nm, expect),
-                "values of type %s are converted with `%s` (expected `%s`)" % (nm, got, expect))
+        got = outs[0]
+        if want == "itself":
+            ok = got == P
+        elif want == "numpy table":
+            ok = got[0] == "callv" and bool(find(got[1], ("attr", P, "dtype"))) and got[2] == (P,)
+        else:
+            ok = got[0] == want[0] and got[1] == want[1] and got[2] == (P,)
+        R.check(ok, key, fi.where(), "%s -> %s" % (tname, show(alpha(got))[:60]),
+                "a %s value is converted with `%s`%s" % (tname, show(alpha(got))[:80],
+                                                         ": True/False would be written as an integer instead of Boolean" if tname == "bool" else ""))
 
 
 # ---------------------------------------------------------------------------
